@@ -1833,16 +1833,19 @@ fn round_abort(seed: u64, hb: &Heartbeat, tot: &Mutex<Tot>, prop: &str) {
     let cap = 1 + r.below(3) as usize;
     let npend = 1 + r.below(4) as usize;
     let pre_yield = r.below(3);
+    // variant: the actor lives on a runtime of its own which is shut down (its task is cancelled by the runtime, not by abort())
+    let mut rt_a = if r.chance(35) { Some(tokio::runtime::Builder::new_multi_thread().worker_threads(1 + r.below(2) as usize).enable_time().build().unwrap()) } else { None };
+    let ended_by = if rt_a.is_some() { "the runtime the actor was spawned on was shut down (shutdown_background)" } else { "the actor's JoinHandle was aborted" };
     let bucket0 = hb.now_bucket();
     let mut viol: Vec<(String, String)> = vec![];
     let mut inconclusive = None;
     let mut obl: Vec<&'static str> = vec![];
     rt.block_on(async {
         let handled = Arc::new(std::sync::atomic::AtomicU64::new(0));
-        let (a, jh) = rsactor::spawn_with_mailbox_capacity::<A>(
-            Args { handled: handled.clone(), start_ms: if situation == 3 { 30 } else { 0 }, ticks: situation == 2 },
-            cap,
-        );
+        let (a, jh) = {
+            let _g = rt_a.as_ref().map(|r| r.enter());
+            rsactor::spawn_with_mailbox_capacity::<A>(Args { handled: handled.clone(), start_ms: if situation == 3 { 30 } else { 0 }, ticks: situation == 2 }, cap)
+        };
         let weak = rsactor::ActorRef::downgrade(&a);
         let mut pend = vec![];
         if situation == 1 || situation == 3 {
@@ -1877,11 +1880,14 @@ fn round_abort(seed: u64, hb: &Heartbeat, tot: &Mutex<Tot>, prop: &str) {
         for _ in 0..pre_yield {
             tokio::task::yield_now().await;
         }
-        jh.abort();
+        match rt_a.take() {
+            Some(ra) => ra.shutdown_background(),
+            None => jh.abort(),
+        }
         let mut jh = jh;
         let res = tokio::time::timeout(Duration::from_secs(10), &mut jh).await;
         let Ok(res) = res else {
-            inconclusive = Some("the aborted JoinHandle did not resolve within 10 s".to_string());
+            inconclusive = Some("the JoinHandle did not resolve within 10 s after abort / runtime shutdown".to_string());
             return;
         };
         let how = match &res {
@@ -1909,7 +1915,7 @@ fn round_abort(seed: u64, hb: &Heartbeat, tot: &Mutex<Tot>, prop: &str) {
             alive.push("upgraded ActorWeak");
         }
         if !alive.is_empty() {
-            viol.push(("C11.alive_false".into(), format!("[abort] the actor's JoinHandle was aborted and resolved with {how} (situation {situation}), yet is_alive() is still true on {:?}", alive)));
+            viol.push(("C11.alive_false".into(), format!("[abort] {ended_by} and its JoinHandle resolved with {how} (situation {situation}), yet is_alive() is still true on {:?}", alive)));
         }
         obl.push("C11.send_after_end");
         let mut okd = vec![];
@@ -1930,7 +1936,7 @@ fn round_abort(seed: u64, hb: &Heartbeat, tot: &Mutex<Tot>, prop: &str) {
         }
         if !okd.is_empty() {
             let clause = if okd.iter().any(|s| s.contains("pending")) { "C03.complete" } else { "C11.send_after_end" };
-            viol.push((clause.into(), format!("[abort] after the aborted JoinHandle resolved with {how} (situation {situation}): {:?}", okd)));
+            viol.push((clause.into(), format!("[abort] {ended_by}; after its JoinHandle resolved with {how} (situation {situation}): {:?}", okd)));
         }
         // pending operations must all finish with an error
         obl.push("C03.complete");
@@ -1953,16 +1959,16 @@ fn round_abort(seed: u64, hb: &Heartbeat, tot: &Mutex<Tot>, prop: &str) {
             }
         }
         if still > 0 {
-            viol.push(("C03.complete".into(), format!("[abort] {still} operation(s) pending on the actor when its JoinHandle was aborted (resolved with {how}, situation {situation}, capacity {cap}) were still waiting 10 s later")));
+            viol.push(("C03.complete".into(), format!("[abort] {ended_by}; {still} operation(s) pending on the actor at that moment (JoinHandle resolved with {how}, situation {situation}, capacity {cap}) were still waiting 10 s later")));
         }
         if okp > 0 {
-            viol.push(("C03.integrity".into(), format!("[abort] an ask whose handler sleeps for 30 s returned Ok after the actor's JoinHandle was aborted (situation {situation})")));
+            viol.push(("C03.integrity".into(), format!("[abort] an ask whose handler sleeps for 30 s returned Ok although {ended_by} (situation {situation})")));
         }
         tokio::time::sleep(Duration::from_millis(5)).await;
         let h1 = handled.load(Ordering::SeqCst);
         obl.push("C01.rejected");
         if h1 > h0 {
-            viol.push(("C01.rejected".into(), format!("[abort] {} handler(s) were entered after the aborted JoinHandle had resolved with {how} (situation {situation})", h1 - h0)));
+            viol.push(("C01.rejected".into(), format!("[abort] {} handler(s) were entered after {ended_by} and the JoinHandle had resolved with {how} (situation {situation})", h1 - h0)));
         }
         drop((ctl, th, up));
     });
@@ -1970,7 +1976,7 @@ fn round_abort(seed: u64, hb: &Heartbeat, tot: &Mutex<Tot>, prop: &str) {
     let stalled = hb.max_late_since(bucket0) > STALL_US;
     let mut t = tot.lock().unwrap();
     t.rounds += 1;
-    t.hashes.insert(mix(situation * 16 + cap as u64, (npend as u64) * 4 + pre_yield));
+    t.hashes.insert(mix(situation * 16 + cap as u64, (npend as u64) * 8 + pre_yield * 2 + ended_by.len() as u64 % 2));
     if let Some(m) = inconclusive {
         t.inconclusive.push(format!("abort round {seed}: {m}"));
         return;
